@@ -1391,8 +1391,10 @@ class Array(RegisterObject):
 
         arg = type(self)._generic_arg_
 
-        start = arg.offset - self._global_offset_
-        stop = arg.end - self._global_offset_
+        # element offsets are relative to the array itself (whose global offset
+        # already contains the offsets of all enclosing register files)
+        start = 0
+        stop = arg.end - arg.offset
         step = arg.array_step
 
         elements = []
